@@ -29,7 +29,17 @@ def _sorted_distinct(rng, n):
     while True:
         v = sorted(_pt(rng) for _ in range(n))
         if all(a < b for a, b in zip(v, v[1:])):
-            return v
+            break
+    if n >= 2 and rng.random() < 0.05:
+        # two consecutive parameters only 1-3 ulps apart: valid, and the place where rounded midpoints and differences
+        # coincide with the parameters themselves (SShape returned 2*height at x = end there before the fix 5d81399)
+        i = rng.randrange(n - 1)
+        w = v[i]
+        for _ in range(rng.choice([1, 1, 2, 3])):
+            w = math.nextafter(w, inf)
+        if i + 2 >= n or w < v[i + 2]:
+            v[i + 1] = w
+    return v
 
 
 def gen_params(name: str, rng, vertical: bool = False) -> dict:
